@@ -365,7 +365,26 @@ class Harness(object):
         kw = {}
         if error_handler is not None and not has_outer:
             kw['error_handler'] = error_handler
-        if construct == 'add':
+        if cfg.get('bundled_between'):
+            # the stock middlewares sit between the first application-level middleware and the rest: they are
+            # transparent for the order and for what is raised or returned through them
+            from clastic.middleware import GzipMiddleware, HTTPCacheMiddleware, SimpleProfileMiddleware, ContextProcessor
+            from clastic.middleware.stats import StatsMiddleware
+            stock = [StatsMiddleware(), GzipMiddleware(), HTTPCacheMiddleware(), SimpleProfileMiddleware(),
+                     ContextProcessor(defaults={'zq_unused': 1})]
+            app_mws_list[1:1] = stock
+            if one_shot:
+                app_mws = _OneShot(app_mws_list)
+        if construct == 'cline':
+            # the bottle-like spelling of the same configuration
+            from clastic.cline import Cline
+            kw.update(slash_kw)
+            app = Cline(resources=app_res, middlewares=app_mws, autorender=False, **kw)
+            app.route(pattern, ('GET',), ep, render=rn, middlewares=route_mws[:-1], resources=dict(route_res))
+            self.route_obj = None
+            for sr in sibling:
+                app.add(sr)
+        elif construct == 'add':
             kw.update(slash_kw)
             app = Application([], resources=app_res, middlewares=app_mws, **kw)
             app.add(route)
